@@ -84,7 +84,15 @@ func WeightOf(v []byte) uint64 { return 1 + uint64(v[0]%7) }
 func GenValue(rt *rapid.T, keyIdx int, counter *int, unique bool) []byte {
 	*counter++
 	if unique {
-		return []byte{byte(gen.Uniform(rt, 0, 13, "vw")), byte(keyIdx), byte(*counter), byte(*counter >> 8)}
+		v := []byte{byte(gen.Uniform(rt, 0, 13, "vw")), byte(keyIdx), byte(*counter), byte(*counter >> 8)}
+		// a quarter of the values are long (around and beyond the 32-byte hash size)
+		if gen.Chance(rt, 25, "longvalue") {
+			tail := gen.Pick(rt, []int{27, 28, 29, 44, 200}, "vtail")
+			for i := 0; i < tail; i++ {
+				v = append(v, byte(i*7+keyIdx+*counter))
+			}
+		}
+		return v
 	}
 	n := gen.Uniform(rt, 1, 3, "vn")
 	v := make([]byte, n)
